@@ -74,18 +74,19 @@ impl OutcomeTestGenerator for Outcome {
                             }
                             DiffLine::UnexpectedLines { lines } => {
                                 for (_, line) in lines {
-                                    let suffix = if line.ends_with(b"\n") {
+                                    let expectation = self
+                                        .escaping
+                                        .escaped_expectation((&line[..]).trim_newlines());
+                                    // an escaped expectation ignores the final newline
+                                    // anyway (and `(no-eol)` would take over as its kind)
+                                    let suffix = if line.ends_with(b"\n")
+                                        || expectation.ends_with(" (escaped)")
+                                    {
                                         ""
                                     } else {
                                         " (no-eol)"
                                     };
-                                    let line = formatln!(
-                                        "{}{}",
-                                        self.escaping
-                                            .escaped_expectation((&line[..]).trim_newlines()),
-                                        suffix
-                                    );
-                                    generated.push_str(&line)
+                                    generated.push_str(&formatln!("{}{}", expectation, suffix))
                                 }
                             }
                             _ => continue,
